@@ -319,7 +319,7 @@ CHECKS = {
               " slow-reader (real time): 2..5 envelopes over a loopback WebSocket or HTTP connection while the reader pauses 7 s (thorough: up to 21 s) before its second Read; everything written without error is read, in order."),
         jobs=[dict(test="TestC19RoundTrip", quick=480, thorough=8000), dict(test="TestC19Raw", quick=800, thorough=20000), dict(test="TestC19Ctx", quick=48, thorough=400, shards=8), dict(test="TestC19First", quick=96, thorough=1600, shards=8), dict(test="TestC19SlowReader", quick=4, thorough=24, shards=4),
               dict(test="TestC19Idle", quick=400, thorough=6000, shards=8), dict(test="TestC19Conc", quick=320, thorough=4000), dict(test="TestC19Reuse", quick=480, thorough=6000), dict(test="FuzzC19Decode", kind="fuzz", quick=0, thorough=120)],
-        floors={"TestC19RoundTrip:rt.websocket": 0.25, "TestC19RoundTrip:rt.http": 0.2, "TestC19RoundTrip:rt.channel": 0.1, "TestC19Conc:conc.http": 0.25, "TestC19Idle:idle.fresh=true": 0.15, "TestC09Late:late.some_complete=true": 0.4},
+        floors={"TestC19Conc:conc.crowd=true": 0.04, "TestC19RoundTrip:rt.websocket": 0.25, "TestC19RoundTrip:rt.http": 0.2, "TestC19RoundTrip:rt.channel": 0.1, "TestC19Conc:conc.http": 0.25, "TestC19Idle:idle.fresh=true": 0.15, "TestC09Late:late.some_complete=true": 0.4},
         assumptions=COMMON_ASSUMPTIONS + ["WebSocket and HTTP sub-checks use real loopback sockets and wall-clock budgets; exceeding a budget is reported as inconclusive (exit 2), never as a violation"],
         timeout_quick=600,
     ),
